@@ -11,6 +11,10 @@ func main() {
 	switch os.Args[1] {
 	case "registry":
 		registryMain(os.Args[2:])
+	case "filesink":
+		filesinkMain(os.Args[2:])
+	case "filesink-child":
+		fsChildMain(os.Args[2:])
 	case "reentry":
 		reentryMain(os.Args[2:])
 	case "race":
